@@ -136,7 +136,12 @@ func genObjDoc[K comparable, V comparable](r *core.R, dk *Dom[K], dv *Dom[V], n 
 var jsonLiterals = []string{"null", "[]", "{}", "[null]", "[[]]", "[{}]", `{"a":null}`, `""`, "0", "true", " [ ] ", "\n{}\n", "", " ", "[", "{", "]", "}", `[1,2`, `{"a":`, `{"a"}`, `[,]`, `[1,]`,
 	`{"a":1,}`, `nul`, `[1 2]`, `{"a" 1}`, `{1:2}`, `['a']`, `[1e400]`, `[99999999999999999999]`, `[1.5]`, `[-0]`, `{"":0}`, `{"":""}`, `[""]`, `[" "]`, `{"a":1}{"b":2}`, `[1][2]`, `[1,2]x`,
 	"\xef\xbb\xbf[1]", "\xef\xbb\xbf{}", `{"a":{"b":1}}`, `[[1],[2]]`, `{"a":[1]}`, `[true,false]`, `{"a":true}`, `[1,"x",3]`, `{"a":1,"b":"x"}`, `["x",1]`, `{"\u0061":1}`, `{"a":1,"a":2}`,
-	`{"A":1,"a":2}`, `[1,1,1]`, `["a","A","a"]`, `{"a":1,"b":1}`, `{"6":6,"06":7}`, `{"+6":1}`, `{"6.0":1}`, `{" 6":1}`, `{"6":"6"}`, `[null,null]`, `{"k":null}`, "[\"\\ud800\"]", `["\u0000"]`}
+	`{"A":1,"a":2}`, `[1,1,1]`, `["a","A","a"]`, `{"a":1,"b":1}`, `{"6":6,"06":7}`, `{"+6":1}`, `{"6.0":1}`, `{" 6":1}`, `{"6":"6"}`, `[null,null]`, `{"k":null}`, "[\"\\ud800\"]", `["\u0000"]`,
+	// literals padded with white space, byte order marks whole and cut short, lone UTF-8 lead bytes
+	"null\n", " null", "null ", "\tnull\r\n", "[]\n", " {} ", "\xef", "\xef\xbb", "\xef\xbb\xbf", "\xef\xbb\xbfnull", "\xff\xfe", "\xfe\xff", "\xc3", "\xe2\x82", "\xf0\x9f\x98",
+	"[1,2] ]", "[1,2],", "[]0", "{}{}", "{} x", `{"a":1}` + "\x00",
+	// member names with control characters, DEL, line separators
+	`{"b\u0007":2}`, `{"a":1,"b\u000b":2,"c":3}`, `{"\u007f":1}`, `{"\u2028":1,"\u2029":2}`, `["\u0007","\u007f"]`, `{"tab\tkey":1}`}
 
 var jsonReplacements = []string{`"x"`, `7`, `1.5`, `true`, `null`, `[1]`, `{"a":1}`, `1e400`, `99999999999999999999`, `-0`, `"\u0041"`, `""`, `-9223372036854775809`, `"7"`}
 
